@@ -1051,7 +1051,12 @@ class StructOf(DataType):
         self.check_type(value, True)
         key = None  # for the error message, in case previous is not a dict
         try:
-            result = dict(previous or {})
+            result = {}
+            for key, val in dict(previous or {}).items():
+                if val is not None and value.get(key) is None:
+                    # a member taken over from the previous value has to be valid as well
+                    # (the parameter may hold a value outside the limits, as reported by the hardware)
+                    result[key] = self.members[key].validate(val)
             for key, val in value.items():
                 if val is not None:  # goodie: allow None instead of missing key
                     result[key] = self.members[key].validate(val)
